@@ -78,6 +78,7 @@ type Stats struct {
 	AssertSat      int            `json:"assert_sat"`
 	AssertUnknown  int            `json:"assert_unknown"`
 	AssertFolded   int            `json:"assert_true_by_term_identity"`
+	FeasUnknown    int            `json:"feasibility_unknown_branch_kept"`
 	Unsupported    map[string]int `json:"unsupported"`
 	UnwindExceeded int            `json:"unwind_exceeded"`
 	Steps          int64          `json:"ssa_instructions_executed"`
@@ -283,6 +284,7 @@ func (ex *Explorer) choose(p *Path, alts []*Term) int {
 		if res != "sat" {
 			m = p.model // unknown: keep the branch, model may be stale
 			ex.feasTimeouts++
+			ex.stats.FeasUnknown++
 		}
 		if first < 0 {
 			first, firstModel = k, m
